@@ -147,7 +147,7 @@ def run(ctx):
                "write_err": e["werr"], "len_after_write": e["len2"]} for s, e in pairs[200:203]]
     covd = {"evaluations": nreads, "distinct_nontrivial": len(scns),
             "rule": "evaluations = Read/Write/Update observations judged by TLC; distinct = descriptors enumerated by TLC (every registered extension "
-                    "type x list lengths 0..2 over 2-3 symbols, plus %d boundary descriptors with seed-dependent contents) x buffer sizes L, L-1, L/2, 0, L+3" % nboundary,
+                    "type x list lengths 0..%d over 2-3 symbols, plus %d boundary descriptors with seed-dependent contents) x buffer sizes L, L-1, L/2, 0, L+3" % (2 if ctx.quick else 3, nboundary),
             "kinds": len(bykind), "kinds_with_decoder": len(kinds["writers"]), "roundtrips_in_limits": rt, "boundary_descriptors": nboundary,
             "branches_taken": sorted(cov), "canaries": ncan, "samples": sample, "exhaustive": True}
     return "model_checking", covd, ["the harness builds the object the descriptor names (reflection, no per-type code except the padding functor)",
